@@ -658,6 +658,12 @@ class Exec:
             if fn.attr in ('count', 'rfind') and isinstance(e.args[0], ast.Constant) and e.args[0].value == '\n':
                 v = s.ev(st, fn.value)
                 if v.ty == STR: return SV((s.str_cnt if fn.attr == 'count' else s.str_rf)(v.t), INT)
+            if fn.attr in ('startswith', 'endswith') and len(e.args) == 1 and not e.keywords and not isinstance(fn.value, ast.Constant):
+                v = s.ev(st, fn.value)
+                if v.ty == STR:       # a pure predicate of the two string values: uninterpreted (nothing is assumed about it)
+                    a_ = s.ev(st, e.args[0])
+                    if a_.ty != STR: raise Unsupported(f'str.{fn.attr} of a non-string')
+                    return SV(Function('str_' + fn.attr, I, I, BoolSort())(v.t, a_.t), BOOL)
             qual = (isinstance(fn.value, ast.Attribute) and isinstance(fn.value.value, ast.Name) and fn.value.value.id not in st.env
                     and fn.value.value.id not in s.p.classes and fn.value.attr in s.p.classes)       # module.Class.method(...)
             if qual or (isinstance(fn.value, ast.Name) and fn.value.id in s.p.classes and fn.value.id not in st.env):   # Class.method(...)
